@@ -594,3 +594,169 @@ Proof.
     destruct (H b1 b2 H1 H2) as [E|D]; [left; now apply set_eq_iff|].
     right. now apply negb_true_iff, meets_false_iff.
 Qed.
+
+(* ------------------------------------------------------------------------------------------------ *)
+(* 2-partitions: at least one ballot, at most two distinct approval sets s and t, any two approval sets equal
+   or disjoint, and if s and t differ they cover all the alternatives *)
+Definition TwoPart (alts : list N) (ballots : list (list N)) : Prop :=
+  PartOK ballots /\
+  exists s t, In s ballots /\ In t ballots /\
+    (forall b, In b ballots -> SetEq b s \/ SetEq b t) /\
+    (SetEq s t \/ SetEq (s ++ t) alts).
+
+Definition two_cond (alts : list N) (parts : list (list N)) : Prop :=
+  length parts = 1 \/ (length parts = 2 /\ SetEq (concat parts) alts).
+
+Lemma SetEq_app s s' t t' : SetEq s s' -> SetEq t t' -> SetEq (s ++ t) (s' ++ t').
+Proof. intros H1 H2 x. rewrite !in_app_iff, (H1 x), (H2 x). reflexivity. Qed.
+
+Lemma two_part_A alts ballots parts :
+  part_check ballots parts = true -> two_cond alts parts -> TwoPart alts ballots.
+Proof.
+  intros Hc Hcond. split; [now apply (part_check_sound ballots parts)|].
+  apply part_check_spec in Hc. destruct Hc as (H1 & H2 & H3).
+  destruct Hcond as [Hlen|[Hlen Hcov]].
+  - destruct parts as [|p [|q r]]; try discriminate.
+    destruct (H2 p (or_introl eq_refl)) as (b0 & Hb0 & E0).
+    exists b0, b0. repeat split; auto.
+    + intros b Hb. destruct (H1 b Hb) as (s & [<-|[]] & E). left.
+      eapply SetEq_trans; [apply SetEq_sym; exact E|exact E0].
+    + left. apply SetEq_refl.
+  - destruct parts as [|p [|q [|r rest]]]; try discriminate.
+    destruct (H2 p (or_introl eq_refl)) as (bp & Hbp & Ep).
+    destruct (H2 q (or_intror (or_introl eq_refl))) as (bq & Hbq & Eq).
+    exists bp, bq. repeat split; auto.
+    + intros b Hb. destruct (H1 b Hb) as (s & [<-|[<-|[]]] & E).
+      * left. eapply SetEq_trans; [apply SetEq_sym; exact E|exact Ep].
+      * right. eapply SetEq_trans; [apply SetEq_sym; exact E|exact Eq].
+    + right. simpl in Hcov. rewrite app_nil_r in Hcov.
+      eapply SetEq_trans; [|exact Hcov]. apply SetEq_app; now apply SetEq_sym.
+Qed.
+
+Lemma part_rel_not_eq p q : part_rel p q = true -> ~ SetEq p q.
+Proof.
+  unfold part_rel. rewrite andb_true_iff, negb_true_iff. intros [H _]. now apply set_eq_false_iff.
+Qed.
+
+Lemma two_part_B alts ballots parts :
+  part_check ballots parts = true -> TwoPart alts ballots -> two_cond alts parts.
+Proof.
+  intros Hc [_ (s & t & Hs & Ht & Hall & Hcov)].
+  apply part_check_spec in Hc. destruct Hc as (H1 & H2 & H3).
+  assert (Hst : forall p, In p parts -> SetEq p s \/ SetEq p t).
+  { intros p Hp. destruct (H2 p Hp) as (b & Hb & E). destruct (Hall b Hb) as [E'|E'];
+      [left|right]; eapply SetEq_trans; eassumption. }
+  assert (Hsame : forall p q u, SetEq p u -> SetEq q u -> part_rel p q = true -> False).
+  { intros p q u Hp Hq R. apply (part_rel_not_eq p q R).
+    eapply SetEq_trans; [exact Hp|now apply SetEq_sym]. }
+  destruct parts as [|p [|q [|r rest]]].
+  - destruct (H1 s Hs) as (x & [] & _).
+  - left. reflexivity.
+  - right. split; [reflexivity|]. simpl. rewrite app_nil_r.
+    simpl in H3. rewrite !andb_true_iff in H3. destruct H3 as [[R _] _].
+    destruct (Hst p (or_introl eq_refl)) as [Ep|Ep];
+      destruct (Hst q (or_intror (or_introl eq_refl))) as [Eq|Eq].
+    + destruct (Hsame p q s Ep Eq R).
+    + destruct Hcov as [Hcov|Hcov].
+      * destruct (Hsame p q t); auto. eapply SetEq_trans; eassumption.
+      * eapply SetEq_trans; [|exact Hcov]. now apply SetEq_app.
+    + destruct Hcov as [Hcov|Hcov].
+      * destruct (Hsame p q t); auto. eapply SetEq_trans; eassumption.
+      * eapply SetEq_trans; [|exact Hcov]. intros x. rewrite !in_app_iff, (Ep x), (Eq x). tauto.
+    + destruct (Hsame p q t Ep Eq R).
+  - exfalso. simpl in H3. rewrite !andb_true_iff in H3.
+    destruct H3 as [[Rpq [Rpr _]] [[Rqr _] _]].
+    destruct (Hst p (or_introl eq_refl)) as [Ep|Ep];
+      destruct (Hst q (or_intror (or_introl eq_refl))) as [Eq|Eq];
+      destruct (Hst r (or_intror (or_intror (or_introl eq_refl)))) as [Er|Er];
+      eauto using Hsame.
+Qed.
+
+Lemma is_2_part_unfold alts ballots parts :
+  is_2_part alts ballots = Some parts <-> is_part ballots = Some parts /\ two_cond alts parts.
+Proof.
+  unfold is_2_part, two_cond. destruct (is_part ballots) as [ps|]; [|split; [discriminate|intros [H _]; discriminate]].
+  assert (Hcov : set_eq (union_all ps) (to_set alts) = true <-> SetEq (concat ps) alts).
+  { rewrite set_eq_iff. unfold union_all. split; intros H.
+    - eapply SetEq_trans; [apply SetEq_sym, to_set_SetEq|]. eapply SetEq_trans; [exact H|apply to_set_SetEq].
+    - eapply SetEq_trans; [apply to_set_SetEq|]. eapply SetEq_trans; [exact H|apply SetEq_sym, to_set_SetEq]. }
+  destruct (Nat.eqb_spec (length ps) 1) as [E1|E1].
+  - split; [intros [= <-]; auto|intros [[= <-] _]; reflexivity].
+  - destruct (Nat.eqb_spec (length ps) 2) as [E2|E2]; simpl.
+    + destruct (set_eq (union_all ps) (to_set alts)) eqn:E.
+      * split; [intros [= <-]; split; [reflexivity|right; split; [exact E2|now apply Hcov]]
+               |intros [[= <-] _]; reflexivity].
+      * split; [discriminate|]. intros [[= <-] [H|[_ H]]]; [contradiction|].
+        apply Hcov in H. congruence.
+    + split; [discriminate|]. intros [[= <-] [H|[H _]]]; contradiction.
+Qed.
+
+(* is_2_part returns a list <-> the profile is a 2-partition; the returned list passes the 2-partition checker *)
+Theorem two_part_correct alts ballots :
+  (exists parts, is_2_part alts ballots = Some parts) <-> TwoPart alts ballots.
+Proof.
+  split.
+  - intros (parts & H). apply is_2_part_unfold in H. destruct H as [H Hc].
+    apply (two_part_A alts ballots parts); [now apply part_witness|exact Hc].
+  - intros HT. assert (HP : PartOK ballots) by apply HT.
+    apply part_correct in HP. destruct HP as (parts & Hp). exists parts.
+    apply is_2_part_unfold. split; [exact Hp|].
+    apply (two_part_B alts ballots parts); [now apply part_witness|exact HT].
+Qed.
+
+Lemma part2_check_unfold alts ballots parts :
+  part2_check alts ballots parts = true <-> part_check ballots parts = true /\ two_cond alts parts.
+Proof.
+  unfold part2_check, two_cond. rewrite andb_true_iff, orb_true_iff, andb_true_iff, !Nat.eqb_eq, set_eq_iff.
+  reflexivity.
+Qed.
+
+Theorem two_part_witness alts ballots parts :
+  is_2_part alts ballots = Some parts -> part2_check alts ballots parts = true.
+Proof.
+  intros H. apply is_2_part_unfold in H. destruct H as [H Hc].
+  apply part2_check_unfold. split; [now apply part_witness|exact Hc].
+Qed.
+
+Theorem part2_check_sound alts ballots parts : part2_check alts ballots parts = true -> TwoPart alts ballots.
+Proof. intros H. apply part2_check_unfold in H. destruct H as [H Hc]. now apply (two_part_A alts ballots parts). Qed.
+
+(* is_2_part refuses every profile without ballots (zero distinct approval sets) *)
+Theorem two_part_no_ballots alts : is_2_part alts [] = None.
+Proof. reflexivity. Qed.
+
+Theorem part2_decide_correct alts ballots : part2_decide alts ballots = true <-> TwoPart alts ballots.
+Proof.
+  unfold part2_decide, TwoPart. rewrite andb_true_iff, part_decide_correct.
+  split; intros [HP H]; (split; [exact HP|]).
+  - destruct ballots as [|s rest]; [discriminate|].
+    apply existsb_exists in H. destruct H as (t & Ht & H). apply andb_true_iff in H. destruct H as [Hall Hcov].
+    exists s, t. split; [now left|]. split; [exact Ht|]. split.
+    + intros b Hb. rewrite forallb_forall in Hall. specialize (Hall b Hb). apply orb_true_iff in Hall.
+      destruct Hall as [E|E]; [left|right]; now apply set_eq_iff.
+    + apply orb_true_iff in Hcov. destruct Hcov as [E|E]; [left|right]; now apply set_eq_iff.
+  - destruct H as (s & t & Hs & Ht & Hall & Hcov).
+    destruct ballots as [|s0 rest]; [destruct Hs|].
+    (* the first ballot is one of the two sets *)
+    assert (Hgen : forall u, In u (s0 :: rest) -> (forall b, In b (s0 :: rest) -> SetEq b s0 \/ SetEq b u) ->
+                   (SetEq s0 u \/ SetEq (s0 ++ u) alts) ->
+                   existsb (fun t0 => forallb (fun b => set_eq b s0 || set_eq b t0) (s0 :: rest) &&
+                                      (set_eq s0 t0 || set_eq (s0 ++ t0) alts)) (s0 :: rest) = true).
+    { intros u Hu Hall' Hcov'. apply existsb_exists. exists u. split; [exact Hu|]. apply andb_true_iff. split.
+      - apply forallb_forall. intros b Hb. apply orb_true_iff.
+        destruct (Hall' b Hb) as [E|E]; [left|right]; now apply set_eq_iff.
+      - apply orb_true_iff. destruct Hcov' as [E|E]; [left|right]; now apply set_eq_iff. }
+    destruct (Hall s0 (or_introl eq_refl)) as [E0|E0].
+    + (* s0 ~ s: take u = t *)
+      apply (Hgen t Ht).
+      * intros b Hb. destruct (Hall b Hb) as [E|E]; [left|now right].
+        eapply SetEq_trans; [exact E|now apply SetEq_sym].
+      * destruct Hcov as [E|E]; [left; eapply SetEq_trans; eassumption|right].
+        eapply SetEq_trans; [|exact E]. apply SetEq_app; [exact E0|apply SetEq_refl].
+    + (* s0 ~ t: take u = s *)
+      apply (Hgen s Hs).
+      * intros b Hb. destruct (Hall b Hb) as [E|E]; [now right|left].
+        eapply SetEq_trans; [exact E|now apply SetEq_sym].
+      * destruct Hcov as [E|E]; [left; eapply SetEq_trans; [exact E0|now apply SetEq_sym]|right].
+        eapply SetEq_trans; [|exact E]. intros x. rewrite !in_app_iff, (E0 x). tauto.
+Qed.
